@@ -487,6 +487,11 @@ func (p *exprParser) parseType() *TypeExpr {
 		v := p.parseType()
 		return &TypeExpr{Kind: "map", Key: k, Elem: v}
 	}
+	if t.s == "struct" && p.isOp("{") {
+		p.p++
+		p.expectOp("}")
+		return &TypeExpr{Kind: "name", Name: "struct{}"}
+	}
 	if p.isOp(".") {
 		p.p++
 		n := p.cur()
